@@ -1491,8 +1491,11 @@ class Slice(Funsor, metaclass=SliceMeta):
         elif isinstance(index, Slice):
             name = index.name
             start = self.slice.start + self.slice.step * index.slice.start
+            stop = min(
+                self.slice.stop, self.slice.start + self.slice.step * index.slice.stop
+            )
             step = self.slice.step * index.slice.step
-            return Slice(name, start, self.slice.stop, step, self.dtype)
+            return Slice(name, start, stop, step, self.dtype)
         else:
             raise NotImplementedError(
                 "TODO support substitution of {} into Slice".format(type(index))
